@@ -75,6 +75,8 @@ func main() {
 	case "steps":
 		pats = []string{repoMod + "/transformer", repoMod + "/graph", repoMod + "/utils", repoMod + "/validation", repoMod + "/errors",
 			"github.com/antlr4-go/antlr/v4", "gopkg.in/yaml.v3", repoMod + "/gen"}
+		// map iteration of the repository and of gonum is owned here too: a step count must not depend on the run
+		pats = append(pats, gonumPkgs...)
 	default:
 		fatal("unknown mode %s", *mode)
 	}
@@ -114,7 +116,13 @@ func main() {
 				sites = append(sites, instrMaps(p, f, fe, inRepo)...)
 				instrYield(p, f, fe)
 			case "steps":
-				instrSteps(p, f, fe)
+				gonum := strings.HasPrefix(p.PkgPath, "gonum.org/")
+				if gonum || (inRepo && p.PkgPath != repoMod+"/gen") {
+					sites = append(sites, instrMaps(p, f, fe, inRepo)...)
+				}
+				if !gonum {
+					instrSteps(p, f, fe)
+				}
 			}
 			if len(fe.edits) == 0 {
 				continue
